@@ -338,9 +338,19 @@ func runNotifier(r *runner) {
 					req.Reply <- groups[req.Cluster]
 				}
 			}()
+			nr.sink = nr.sink[:0]
 			nr.n.Refresh()
 			<-done
 			time.Sleep(4 * time.Millisecond)
+			// a refresh only re-reads the listings: whatever it finds, no module hears anything because of it
+			if len(nr.sink) > 0 {
+				var who []string
+				for _, n := range nr.sink {
+					who = append(who, fmt.Sprintf("%s/%d", n.module, n.status))
+				}
+				r.reply("stray-notification %s", strings.Join(who, ","))
+				break
+			}
 			r.reply("ok")
 		case "shift":
 			r.resolve("%s", line)
